@@ -138,10 +138,11 @@ func c18Writer(r *eng.Run, mode int) {
 	}
 	if mode == 1 {
 		cfg2.Client = cfg1.Client
-		cfg2.NoFlush, cfg2.Ext = cfg1.NoFlush, cfg1.Ext // kept by ResetOp
+		cfg2.NoFlush, cfg2.Ext, cfg2.Ext2, cfg2.Extra = cfg1.NoFlush, cfg1.Ext, cfg1.Ext2, cfg1.Extra // kept by ResetOp
 	} else {
 		cfg2.NoFlush = r.T.Chance(sim.LCfg, 1, 5)
 		cfg2.Ext = r.T.Int(sim.LCfg, 3)
+		cfg2.Ext2 = []int{0, 0, 1, 2}[r.T.Int(sim.LCfg, 4)]
 	}
 	p2, p3 := NewPipe(r, nil), NewPipe(r, nil)
 	w := wr1.W
